@@ -543,6 +543,36 @@ def t9(ctx, rid):
     c15.loader_returns_count(ctx, rid)
 
 
+def t10(ctx, rid):
+    """keys are ordered by the key type's own order everywhere in the index code: the serialised tree / sorted file is written
+    in `K` order, so a search that compares raw bytes (`<[u8] as Ord>::cmp`) descends into the wrong node for every key type
+    whose order is not byte-lexicographic - found in memory, NotFound once the index is on disk"""
+    prog = ctx.prog
+    n = 0
+    ORD = ('cmp', 'partial_cmp', 'lt', 'le', 'gt', 'ge', 'max', 'min', 'clamp')
+    for f in prog.fns.values():
+        if not f.file.startswith('src/blob/index/'):
+            continue
+        for c in f.calls:
+            if c.bb not in f.reachable() or c.name not in ORD or c.path not in ('std::cmp::Ord::' + c.name, 'std::cmp::PartialOrd::' + c.name):
+                continue
+            st = (c.self_ty or {}).get('s', '')
+            if 'Key<' in st or st in ('K', '&K'):
+                n += 1
+                ctx.ok(rid, 'key-order|%s|%s' % (prog.fns[f.id].root, c.name), c.where(), 'compares through the key type (%s)' % st[:40], nontrivial=False)
+            elif st.replace('&', '').strip() in ('[u8]', 'std::vec::Vec<u8>'):
+                n += 1
+                ctx.bad(rid, 'key-order|%s|%s' % (prog.fns[f.id].root, c.name), c.where(), 'byte strings are ordered with `<%s as Ord>::%s` in the index code: the index is laid out in the key type\'s order, so for a key type whose order is not lexicographic the on-disk search misses keys that the in-memory index finds' % (st, c.name))
+    if n < 4:
+        raise core.AnchorLost('key comparisons in the index code: %d' % n)
+
+
+def t11(ctx, rid):
+    """a point lookup answers the same whether the newest version sits in the active blob or in a closed one (C02.U6 instances)"""
+    import props.c02 as c02
+    c02.u6(ctx, rid)
+
+
 RULES = [
     Rule('C04.T1', 'every value stored into the active-blob slot is certified to have an in-memory index (open_new, load_index ok, or popped after load_index ok on the last element)', t1, 7),
     Rule('C04.T2', 'every index push is dominated by an InMemory-establishing event, in the body or in every caller, or acts on the active-blob slot', t2, 3),
@@ -552,5 +582,7 @@ RULES = [
     Rule('C04.T7', 'an assignment into the active slot never overwrites a live blob (emptiness seen through the guard in hand, exclusive init, or previous content moved out)', t7, 4),
     Rule('C04.T8', 'a blob moved out of the active slot or the closed list is handed back on every non-error exit', t8, 4),
     Rule('C04.T9', 'the loaders return the record count stored in the index header, not a property of the rebuilt key map', t9, 2),
+    Rule('C04.T10', 'keys are ordered through the key type, never as raw byte strings, in the index code', t10, 4),
+    Rule('C04.T11', 'the point lookup consults every candidate closed blob before it returns Ok (C02.U6 instances)', t11, 1),
     Rule('C04.T6', 'the closed-blob vector (child ids are positions) is never shrunk', t6, 4),
 ]
